@@ -238,7 +238,11 @@ def decompose_and_order(graph, component, component_name, bo_start=0):
         inside_nodes.update(bc_inside_nodes)
 
         if len(bc_inside_nodes) == 0:
-            assert len(bc_end_nodes) == 2
+            if len(bc_end_nodes) != 2:
+                logger.warning(
+                    f"Error: In Chromosome {component_name}, more than two scaffold nodes lie on one cycle. Skipping this chromosome"
+                )
+                return None, None, None, bo_start, None
             node1, node2 = tuple(bc_end_nodes)
             scaffold_graph.add_edge(node1, "+", node2, "+", 0)
 
@@ -281,7 +285,11 @@ def decompose_and_order(graph, component, component_name, bo_start=0):
         node_name for node_name in traversal if scaffold_node_types[node_name] == "s"
     ]
     # check that all scaffold nodes carry the same sequence name (SN), i.e. all came for the linear reference
-    assert len(set(new_graph[n].tags["SN"] for n in traversal_scaffold_only)) == 1
+    if len(set(new_graph[n].tags["SN"] for n in traversal_scaffold_only)) != 1:
+        logger.warning(
+            f"Error: In Chromosome {component_name}, the scaffold nodes do not all belong to the same contig. Skipping this chromosome"
+        )
+        return None, None, None, bo_start, None
     # I save tags as key:(type, value), so "SO":(i, '123')
     coordinates = list(int(new_graph[n].tags["SO"][1]) for n in traversal_scaffold_only)
 
@@ -291,7 +299,11 @@ def decompose_and_order(graph, component, component_name, bo_start=0):
         traversal_scaffold_only.reverse()
         coordinates.reverse()
     for i in range(len(coordinates) - 1):
-        assert coordinates[i] < coordinates[i + 1]
+        if not coordinates[i] < coordinates[i + 1]:
+            logger.warning(
+                f"Error: In Chromosome {component_name}, the scaffold nodes are not in ascending order of their reference offset. Skipping this chromosome"
+            )
+            return None, None, None, bo_start, None
     # compute dictionary mapping each node name to the corresponding "bubble order" and "node order" (BO,NO)
     node_order = dict()
     bo = bo_start
